@@ -194,7 +194,7 @@ class RelativeSequence(AbstractSequence):
         for msg in self._messages:
             msg.channel = channel
 
-    def split(self, capacities: list[int]) -> list[RelativeSequence]:
+    def split(self, capacities: list[int], copy_messages: bool = True) -> list[RelativeSequence]:
         """Splits the sequence into parts of the given capacity.
 
         Creates up to `len(capacities) + 1` new `RelativeSequence`s, where the first `len(capacities)` entries contain
@@ -203,12 +203,14 @@ class RelativeSequence(AbstractSequence):
 
         Args:
             capacities: A list of capacities to split the sequence into.
+            copy_messages: Whether the returned sequences should consist of copies of the messages of this sequence.
+                If `False`, the returned sequences share message objects with this sequence.
 
         Returns: A list of `RelativeSequence`s of the desired size.
 
         """
         split_sequences = []
-        working_memory = copy.copy(self._messages)
+        working_memory = [msg.copy() for msg in self._messages] if copy_messages else copy.copy(self._messages)
 
         current_sequence = RelativeSequence()
         open_messages = dict()
